@@ -102,7 +102,7 @@ class C14(Check):
             loop_unroll = 2
 
         out = Two().run_function(fn, Sym())
-        paths = [st for st, _ in out.returns]
+        paths = [self._uncopy(st) for st, _ in out.returns]
         self.paths14 = getattr(self, "paths14", {})
         self.paths14[name] = paths
 
@@ -160,6 +160,21 @@ class C14(Check):
             else:
                 self.violated("Q2", SIM, q, "t_start-fixed", loop,
                               "t_start is advanced inside the loop although the protocol index is cumulative: step ends are counted twice")
+
+    @staticmethod
+    def _uncopy(st):
+        """A local created as a copy of the protocol (`shifted = protocol.copy()`) is read as the protocol itself: the rules are about
+        which rows / index values are used, and a copy has the same rows (its re-assigned index is tracked separately)."""
+        import re
+
+        names = [e[1] for e in st.events if e[0] == "new" and e[2] in ("protocol.copy()", "copy.deepcopy(protocol)", "protocol.copy(deep=True)")]
+        if not names:
+            return st
+        pat = re.compile(r"\b(" + "|".join(re.escape(n) for n in names) + r")\b")
+
+        def f(x):
+            return pat.sub("protocol", x) if isinstance(x, str) else x
+        return Sym(tuple((f(k), f(v)) for k, v in st.env), tuple((f(c), p) for c, p in st.conds), tuple(tuple(f(x) for x in e) for e in st.events))
 
     def q3(self, sim) -> None:
         fn = sim.func(f"{CLS}.simulate_protocol_time_course")
